@@ -127,7 +127,8 @@ def pipeline(rng, v, valid=None):
         elif r < 0.8:
             out += PINGREQ; kinds.append("o")
         else:
-            u, p = valid if valid else (None, None)
+            u, p = valid if valid and len(valid[0]) + len(valid[1]) < 100 else (None, None)
+            # (the whole write must fit the broker's 1024-byte read buffer, or the server's close cuts the write short)
             out += enc_connect(v, b"late", True, u, p); kinds.append("o")      # a second CONNECT, possibly with valid credentials
     return out, kinds
 
